@@ -133,6 +133,9 @@ def to_asn(t):
         items = list(t[1])
         if t[2]:
             items.append('...')
+        if len(items) >= 2 and len(items[0]) % 2 == 0:
+            # a block comment of two lines after the first enumeral: every line of it has to stay a comment in the declarations
+            return 'ENUMERATED { %s, /* first line\n } second line { */ %s }' % (items[0], ', '.join(items[1:]))
         return 'ENUMERATED { %s }' % ', '.join(items)
     if k == 'choice':
         items = ['%s %s' % (n, to_asn(a)) for n, a in t[1]]
